@@ -25,6 +25,7 @@ META = {
         "Pyoda.C20.loadAndUse_outcome", "Pyoda.C20.fromStream_outcome", "Pyoda.C20.forId_outcome",
         "Pyoda.C20.short_header_rejected", "Pyoda.C20.truncation_inside_field",
         "Pyoda.C20.readN_consumes", "Pyoda.C20.readNTicks_linear", "Pyoda.C20.readFields_fuel_irrelevant",
+        "Pyoda.C20.element_readers_progress",
     ],
     "trusted_base": [
         "io.BytesIO read semantics; struct.unpack('i') of four bytes is 0 iff all four are 0",
@@ -319,6 +320,8 @@ def judge(rel, fault, outcome, detail, secs):
     if outcome == "!memory":
         return {"key": "memory-exhausted", "what": f"{rel} fault {fault}: MemoryError under a {RLIMIT_AS_BYTES >> 30} GiB limit"}
     typ = outcome.split(":", 1)[1]
+    if detail.endswith(":for_id"):
+        typ += "@for_id"      # raised by TzdbDateTimeZoneSource.for_id itself, for an id that get_ids() listed
     return {"key": "escape-" + typ, "what": f"{rel} fault {fault}: {typ} instead of InvalidPyodaDataError ({detail})"}
 
 
@@ -376,6 +379,46 @@ def gen_zone_faults(ctx, zfs, n):
         for cut in (1, 2, len(f) // 2, len(f) - 1):
             out.append(f[:cut])
     return out
+
+
+def guided_zone_faults(ctx, data: bytes, pool_payload: bytes, n: int, per_kind: int = 12):
+    """Model-guided selection: whole-file faults made of 1-4 byte substitutions inside one zone field, kept when the
+    MODEL predicts a rare failure kind below the entry point (RuntimeError, OverflowError, KeyError, IndexError).
+    The verdict on them still comes from the real code."""
+    rng = ctx.rng
+    zfields = [(a, b) for fid, a, b in split_fields(data) if fid == 1 and b - a > 24]
+    cands = []
+    for _ in range(n):
+        a, b = rng.choice(zfields)
+        f = bytearray(data[a:b])
+        k = rng.choices([1, 2, 3, 4], [0.6, 0.2, 0.1, 0.1])[0]
+        edits = []
+        for _ in range(k):
+            p = rng.randrange(max(0, len(f) - 36), len(f)) if rng.random() < 0.7 else rng.randrange(len(f))
+            v = rng.choice([0, 1, 2, 3, 10, 0x7F, 0x80, 0xFF, (f[p] + 1) % 256, (f[p] - 1) % 256, rng.randrange(256), rng.randrange(16)])
+            if v == f[p]:
+                continue
+            f[p] = v
+            edits.append(f"s{a + p}:{v:02x}")
+        if edits:
+            cands.append(("+".join(edits), bytes(f)))
+    ph = hexs(pool_payload)
+    ops = [f"zone.create {ph} " + " ".join(hexs(f) for _, f in cands[i:i + 250]) for i in range(0, len(cands), 250)]
+    chunks = [ops[i::MODEL_JOBS] for i in range(MODEL_JOBS)]
+    chunks = [c for c in chunks if c]
+    with ThreadPoolExecutor(len(chunks) or 1) as ex:
+        res = list(ex.map(lambda c: common.model_eval(c, ctx.driver), chunks))
+    reply = {}
+    for c, r in zip(chunks, res):
+        reply.update(zip(c, r))
+    picked, count = [], {}
+    for i, op in enumerate(ops):
+        for (fault, _), x in zip(cands[i * 250:(i + 1) * 250], reply[op].split(" ")):
+            if x in ("!runtimeError", "!overflowError", "!keyError", "!indexError", "!structError", "!unicodeError"):
+                count[x] = count.get(x, 0) + 1
+                if count[x] <= per_kind:
+                    picked.append(fault)
+    return picked, count
 
 
 def impl_tail(t):
@@ -491,6 +534,9 @@ def run(ctx):
 
         # ---- the property: whole-stream faults ------------------------------------------------------
         faults = ["none"] + gen_faults(ctx, data, list(pool), n_random)
+        guided, gcount = guided_zone_faults(ctx, data, pool_payload, ctx.scale(30_000, 600_000))
+        ctx.note(f"model_guided_candidates.{short}", gcount)
+        faults = list(dict.fromkeys(faults + guided))
         spot = set(ctx.rng.sample(range(len(faults)), max(1, len(faults) // 60)))
         tasks = [(rel, f, i in spot) for i, f in enumerate(faults)]
         t0 = time.time()
@@ -520,6 +566,10 @@ def run(ctx):
         t0 = time.time()
         dis = correspond_parallel(ctx, "stream.faults." + short, lines, impl, oracle=None)
         ctx.note(f"model_wall_s.{short}", round(time.time() - t0, 1))
+        # the function the theorems speak about (`loadAndUse`, no evaluation shortcut) on a seeded sample of the same faults
+        sample = ["none"] + ctx.rng.sample(faults, min(len(faults), ctx.scale(95, 2000)))
+        plain = [f"stream.faultsfull {hx} " + " ".join(sample[i:i + 8]) for i in range(0, len(sample), 8)]
+        dis += correspond_parallel(ctx, "stream.faults.plain." + short, plain, impl, oracle=None)
         # strict per-fault comparison of the disagreeing lines
         explained = unexplained = 0
         for d in dis:
@@ -535,7 +585,7 @@ def run(ctx):
                     unexplained += 1
                     ctx.unexplained.append({"kind": "correspondence", "suite": "stream.faults." + short, "op": f"fault {rel} {f}", "model": m, "impl": r})
         # ctx.correspond recorded the whole line as unexplained (no oracle given): keep only the per-fault entries
-        ctx.unexplained[:] = [u for u in ctx.unexplained if not u.get("op", "").startswith("stream.faults ")]
+        ctx.unexplained[:] = [u for u in ctx.unexplained if not u.get("op", "").startswith("stream.faults")]
         ctx.note(f"disagreeing_faults.{short}", {"explained_by_oracle_failure": explained, "unexplained": unexplained})
 
 
